@@ -370,6 +370,13 @@ func runL5Conc(r *rng.R, threads, perThread int) (obs *l5ConcObs) {
 		}
 	}()
 	nS, nD := 1+r.Intn(3), 1+r.Intn(2)
+	stress := threads == 0
+	if stress {
+		// eviction stress: several goroutines alternate argument shapes on one Statement and
+		// one DB in a tight loop (no iterators, no forced GC): the window between obtaining
+		// a driver statement and executing it is hit many times
+		nS, nD, threads, perThread = 1, 1, 4, 1500
+	}
 	stmts := make([]*sqlair.Statement, nS)
 	for i := range stmts {
 		stmts[i], _ = sqlair.Prepare(l5SQL, Row{}, zoo.Ints{}, zoo.Strs{})
@@ -405,11 +412,11 @@ func runL5Conc(r *rng.R, threads, perThread int) (obs *l5ConcObs) {
 				ctx := context.WithValue(context.Background(), fakedrv.CtxKey{}, fmt.Sprintf("d%d-k%d", di+1, shape))
 				ints, strs := l5Args(shape)
 				q := dbs[di].db.Query(ctx, s, ints, strs)
-				if tr.Chance(1, 4) {
+				if !stress && tr.Chance(1, 4) {
 					runtime.GC()
 				}
 				var err error
-				if open == nil && tr.Chance(1, 4) {
+				if !stress && open == nil && tr.Chance(1, 4) {
 					// keep an iterator open across the following operations
 					open = q.Iter()
 					open.Next()
@@ -590,6 +597,9 @@ func runL5(args []string) {
 			cr := r.Fork()
 			threads := 2 + cr.Intn(5)
 			per := 5 + cr.Intn(20)
+			if i%4 == 3 {
+				threads = 0 // eviction stress
+			}
 			var obs *l5ConcObs
 			key := fmt.Sprint("conc", *seed, i)
 			if withWatchdog(90*time.Second, func() { obs = runL5Conc(cr, threads, per) }) {
